@@ -9,7 +9,7 @@ Helper lemmas for C07 (and C08/C09): the series evaluator of `Gen.R.Vsop` agains
 -/
 noncomputable section
 namespace Pymeeus.Refine.Vsop
-open Pymeeus Pymeeus.PR Pymeeus.GenR
+open Pymeeus Pymeeus.PR Pymeeus.GenR Pymeeus.GenR.Helio
 
 /-! ### evaluator = direct sum -/
 
